@@ -10,10 +10,11 @@ State: `Segs = List (first address × data)`, sorted by address; the Rust `Memor
   `find`, `get`, `remove`, `countRange`, `iterRange` go through it exactly as the Rust methods do.
   Every index expression `self.parts[i]` / slice expression is an explicit `.panic` outcome.
 * `put` and `removeRange` are written in the proof-friendly recursive form over the sorted list
-  (DESIGN §2.1): the `Vec` splice/drain index arithmetic of the Rust code is *not* mirrored statement by
-  statement, so freedom from index panics inside those two Rust functions is a correspondence-only
-  clause (see props/C15.json). Their observable behaviour (return value, resulting segments) is compared
-  with the real code after every operation of every enumerated history.
+  (DESIGN §2.1). The `Vec` splice/drain index arithmetic of the Rust code is mirrored statement by
+  statement, with every panic site explicit, in `Model/MapOps.lean` (`putOps`, `removeRangeOps`), and
+  `Lemmas/MapOps*.lean` prove that on every well-formed map the operational forms return `.ok` of exactly
+  what the recursive forms compute. The observable behaviour of BOTH forms (return value, resulting
+  segments) is compared with the real code after every operation of every enumerated history.
 -/
 namespace Trion.Map
 
